@@ -49,7 +49,7 @@ def arith_lines(rng, thorough):
     for ty, w in (("u32", 32), ("u64", 64), ("size", 64)):
         mx = (1 << w) - 1
         full = boundary(w)
-        co = core(w) if not thorough else full[:: 1 if w == 32 else 2]
+        co = core(w) if not thorough else full
         for op in ("add", "mul", "sub"):
             pairs = set((a, b) for a in co for b in co)
             for b in full:
